@@ -66,6 +66,7 @@ theorem readAbridged_safe (s : Bytes) : Safe 16777216 (readAbridged Cfg.spec s) 
       apply safe_alloc (by simp only [Int.toNat_natCast]; omega)
       apply safe_readN
       intro _ _ _; exact safe_ok _ _ _
+  apply safe_index (by omega)
   simp only
   split
   · apply safe_readN
